@@ -107,6 +107,23 @@ pub fn run(ctx: &Ctx, ev: &mut Ev) {
             }
         }
     }
+    // (c2) 16-bit aliases: an astral scalar next to the BMP scalar with the same low 16 bits, both orders (encoders that
+    // look characters up by their low 16 bits - truncation, shared caches - confuse exactly these)
+    if ctx.want("alias") && !tiny {
+        for &enc in [BIG5, EUC_KR, SHIFT_JIS, EUC_JP, GB18030, GBK, ISO_2022_JP, WINDOWS_1252].iter() {
+            for block in 0x100..0x300u32 {
+                if !ev.mine() { continue; }
+                for cp in (block << 8)..(block << 8) + 0x100 {
+                    let low = cp & 0xFFFF;
+                    if (0xD800..0xE000).contains(&low) { continue; }
+                    let plane2_big5 = enc == BIG5 && cp >= 0x20000;
+                    if !th && !plane2_big5 && cp % 8 != block % 8 { continue; }
+                    if low >= 0x80 { c.check(ev, enc, &[cp, low], true, false); c.check(ev, enc, &[low, cp], true, false); }
+                    if th && low >= 0x80 { c.check(ev, enc, &[cp, cp ^ 0x30000], true, false); }
+                }
+            }
+        }
+    }
     // (d) seeded random texts (long ASCII runs at stride boundaries + alphabet characters)
     if ctx.want("random") {
         let mut r = ctx.rng(3);
